@@ -134,6 +134,8 @@ def run(pid, pc, tier, seed, replay):
         "class_tables_enumerated_exhaustively": stats.get("class_tables_enumerated", 0),
         "spec_verdicts_ok": res["spec_ok"],
         "inconclusive": res["inconclusive"],
+        "notes_count": len(res.get("notes", [])),
+        "notes_sample": sorted(set(res.get("notes", [])))[:5],
         "state_pairs_checked_by_closedCheck": res["pairs_total"],
         "model_vs_impl_disagreements": len(res["mismatches"]),
         "impl_vs_spec_failures": len(res["spec_fail"]),
